@@ -43,6 +43,17 @@ INSTRUCTIONS = [
     ("ffff", "undecodable"), ("06", "invalid in 64-bit"), ("48", "truncated"), ("0f", "truncated 2"), ("c5", "truncated vex"),
 ]
 PROTS = [1, 2, 4, 0x20, 0x40, 0x104, 0x10, 8, 0]
+# text of the MozSoftErrors stream: what minidump-writer emits (an array of objects), hostile member names / values inside such objects
+# (incl. members called like Address members of the report), and what a damaged dump may hold instead: other JSON shapes, not JSON at all
+SOFT_TEXTS = [
+    '[{"ListKindMissing": {"kind": "Threads"}}]', '[]', '[{"a": [1, 2.5, null, "x\\"y"]}, {"b": {}}]',
+    '[{"InitErrors": [{"StopProcessFailed": {"Stop": "EPERM"}}]}, {"SuspendThreadsErrors": [{"PtraceAttachError": [1234, "EPERM"]}]}]',
+    '[{"address": "zz", "offset": 7, "registers": {"rip": "0x1"}, "soft_errors": {"base_addr": "0X10"}}]',
+    '[{"k\\u0001\\"q\\\\": "\\ud83d\\ude00 \\u00e9\\n", "n": [-1, 0, 18446744073709551615, -9223372036854775808, true, false]}, {}]',
+    '[{"dup": 1, "dup": 2, "z": {"y": {"x": [[], [[]], {}]}}}]', ' [ { "ws" : [ 1 , 2 ] } ] ',
+    '7', '-1', '"s"', 'null', 'true', '{"a": 1}', '{}', '["x", 3]', '[{"a": 1}, "x"]', '[[{"a": 1}]]', '[null]', '[{"a": 1}, null]', '[1.5]',
+    'not json', '[{"a": 1}', '', '[{"a": 1}] trailing',
+]
 
 
 def hx(s):
@@ -71,6 +82,12 @@ def strict_loads(data):
             d[k] = v
         return d
     return json.loads(data, parse_constant=no_const, object_pairs_hook=pairs)
+
+
+def strict_loads_dups(data):
+    def no_const(x):
+        raise ValueError("non-standard constant " + x)
+    return json.loads(data, parse_constant=no_const)
 
 
 def addr_ok(v, width32):
@@ -136,7 +153,7 @@ def doc_conforms(t, v, path="$"):
 class C15(PropBase):
     pid = "C15"
     coq_dirs = ["Base", "C08", "C19", "C15"]
-    translators = ["c15_enums.py", "bitflip_consts.py", "c15_schema.py", "c15_keys.py"]
+    translators = ["c15_enums.py", "bitflip_consts.py", "c15_schema.py", "c15_keys.py", "c15_fmt.py"]
     bins = ["c15"]
     has_model_driver = False        # two-stage: the model renders from the facts the harness prints (see extra)
     impl_mem_gb = 6
@@ -366,8 +383,9 @@ class C15(PropBase):
             limits = hx(text)
             if not minfo:
                 maps = hx("10000000-10001000 r-xp 00000000 08:01 1234 /bin/x\n7f0000000000-7f0000002000 rw-p 00000000 00:00 0 [stack]\n")
-        if rng.chance(1, 6):
-            soft = hx(rng.choice(['[{"ListKindMissing": {"kind": "Threads"}}]', '[]', '[{"a": [1, 2.5, null, "x\\"y"]}, {"b": {}}]']))
+        if rng.chance(1, 4):
+            soft = hx(rng.choice(SOFT_TEXTS))
+            dist["soft_errors_stream"] = dist.get("soft_errors_stream", 0) + 1
         # a hand-made amd64 frame record so that a caller recovered through the frame pointer (trust "frame_pointer") occurs:
         # rsp = base, rbp = base+16, [rbp] = saved rbp, [rbp+8] = return address inside the anchor module
         raw = []
@@ -402,10 +420,10 @@ class C15(PropBase):
     # ------------------------------------------------------------------ oracle
     def split(self, ans):
         parts = ans.split("\t")
-        if len(parts) != 5 or not parts[0].startswith("F ") or not parts[1].startswith("V ") or not parts[2].startswith("J ") \
-                or not parts[3].startswith("P ") or not parts[4].startswith("C"):
+        if len(parts) != 6 or not parts[0].startswith("F ") or not parts[1].startswith("V ") or not parts[2].startswith("J ") \
+                or not parts[3].startswith("P ") or not parts[4].startswith("C") or not parts[5].startswith("Q "):
             return None
-        return parts[0][2:], parts[1][2:], parts[2][2:], parts[3][2:], parts[4][2:]
+        return parts[0][2:], parts[1][2:], parts[2][2:], parts[3][2:], parts[4][2:], parts[5][2:]
 
     def oracle(self, case, ans, profile):
         if ans.startswith("P;;"):
@@ -413,7 +431,7 @@ class C15(PropBase):
         sp = self.split(ans)
         if sp is None:
             return "unparseable harness answer " + ans[:80]
-        _facts, _view, jhex, phex, confbits = sp
+        _facts, _view, jhex, phex, confbits, _qhex = sp
         compact_text = None
         docs = []
         for label, h in (("compact", jhex), ("pretty", phex)):
@@ -687,6 +705,21 @@ class C15(PropBase):
             names = [x.get("name") for x in pl.get("limits") or []]
             if names != sorted(names, key=lambda s: s.encode("utf-8")) or len(set(names)) != len(names):
                 return "proc_limits.limits is not sorted by name without repetition: %r" % names[:6]
+        # soft_errors: null or an array of objects (the documented type), and exactly the stream's JSON value when that has the
+        # documented shape (Python's json as the independent reader; duplicate member names: the last one wins in both)
+        se = doc.get("soft_errors")
+        if se is not None and not (isinstance(se, list) and all(isinstance(x, dict) for x in se)):
+            return "soft_errors = %r is not an array of objects (json-schema.md: [ <object> ])" % (se,)
+        if "SOFT" in xt:
+            sh = xt[xt.index("SOFT") + 1]
+            try:
+                want_se = strict_loads_dups(dec(sh)) if sh != "-" else None
+            except ValueError:
+                want_se = None
+            if not (isinstance(want_se, list) and all(isinstance(x, dict) for x in want_se)):
+                want_se = None
+            if se != want_se:
+                return "soft_errors = %r, the dump's soft-errors stream holds %r" % (se, dec(sh)[:200])
         want_assert = [dec(a[0]) for d, a in st if d == "assert"]
         if (doc.get("crash_info") or {}).get("assertion") != (want_assert[-1] if want_assert else None):
             return "crash_info.assertion = %r, the state's assertion is %r" % ((doc.get("crash_info") or {}).get("assertion"), want_assert[-1:] or None)
@@ -738,6 +771,7 @@ class C15(PropBase):
         exe = vlib.ocaml_build(self.pid)
         compared = mism = 0
         wfs = {}
+        pretty_whole = {}
         for prof, answers in ctx["impl"].items():
             lines, idx = [], []
             for i, a in enumerate(answers):
@@ -746,7 +780,7 @@ class C15(PropBase):
                 sp = self.split(a)
                 if sp is None:
                     continue
-                lines.append("%s %s\t%s" % ("D" if prof == "debug" else "R", sp[0], sp[1]))
+                lines.append("%s %s\t%s\t%s" % ("D" if prof == "debug" else "R", sp[0], sp[1], sp[5]))
                 idx.append(i)
             # the extracted UTF-8 codec / serialiser recurse once per code point of a document: give the driver a large stack
             res, dead = vlib.run_lines(["bash", "-c", "ulimit -s 2000000 2>/dev/null || ulimit -s unlimited 2>/dev/null; exec " + exe],
@@ -755,8 +789,14 @@ class C15(PropBase):
                 raise vlib.CheckFailure("c15 model driver died at %s" % (dead[0],))
             for i, line, r in zip(idx, lines, res):
                 compared += 1
-                view = line.split("\t", 1)[1]
-                mview, ok, mconf, wf, rconf, rwid = ((r or "").split("\t") + ["", "", "", "", "", ""])[:6]
+                view = line.split("\t")[1]
+                mview, ok, mconf, wf, rconf, rwid, mpretty, pok = ((r or "").split("\t") + [""] * 8)[:8]
+                spi = self.split(answers[i])
+                # the pretty bytes the model must reproduce: print_json(pretty = true)'s own bytes whenever the view is the whole
+                # document (nothing removed), else the harness's to_string_pretty of the view
+                whole = bytes.fromhex(spi[2]) == view.encode("utf-8") if spi[2] != "-" else False
+                want_pretty = spi[3] if whole else spi[5]
+                pretty_whole[whole] = pretty_whole.get(whole, 0) + 1
                 wfs[wf] = wfs.get(wf, 0) + 1
                 os_unknown = " SYS 8 " in line.split("\t", 1)[0]
                 what = None
@@ -766,6 +806,12 @@ class C15(PropBase):
                             "details the report prints, the state holds [%s]" % (mconf, hconf))
                 elif mview != view:
                     what = "correspondence: the model's rendering of the modelled fields differs from print_json's"
+                elif mpretty != want_pretty:
+                    what = ("correspondence (pretty): the model's pretty rendering [pretty] differs from the bytes print_json(pretty = true) wrote"
+                            if whole else "correspondence (pretty): the model's pretty rendering [pretty] differs from serde_json::to_string_pretty of the view")
+                elif pok != "1":
+                    what = ("the whitespace-tolerant RFC 8259 parser [parse_ws] (theorem c15_pretty_parse) does not accept the real pretty output, or reads "
+                            "another value from it than from the compact output")
                 elif ok != "1":
                     what = "correspondence: the model's parser does not accept / reproduce the real view"
                 elif wf != "1" and not os_unknown:
@@ -788,6 +834,8 @@ class C15(PropBase):
         ctx["info"]["member_coverage_reports_with_member_present"] = dict(sorted(self.__dict__.get("_cov", {}).items()))
         ctx["info"]["traces_validated_against_impl"] = compared
         ctx["info"]["correspondence_mismatches"] = mism
+        ctx["info"]["pretty_compared_with_print_json_bytes"] = pretty_whole.get(True, 0)
+        ctx["info"]["pretty_compared_with_to_string_pretty_of_view"] = pretty_whole.get(False, 0)
         ctx["info"]["states_satisfying_wf_state"] = wfs.get("1", 0)
         ctx["info"]["states_outside_wf_state_os_unknown"] = wfs.get("0", 0)
         return out
